@@ -145,3 +145,27 @@ def random_walks(g, n, depth, seed=0):
                 break
         walks.append(w)
     return walks
+
+
+def all_paths(g, depth, same=None):
+    """Every path of length <= depth from the initial state; `same(ev)` gives a key that must be constant along the
+    path for the events where it is not None (e.g. one direction and family)."""
+    out = []
+
+    def rec(u, path, key):
+        if path:
+            out.append(list(path))
+        if len(path) >= depth:
+            return
+        for i, e in enumerate(g.edges.get(u, ())):
+            k = same(e[0]) if same else None
+            if k is not None and key is not None and k != key:
+                continue
+            v = e[3]
+            if v not in g.states:
+                continue
+            path.append((u, i))
+            rec(v, path, key if k is None else k)
+            path.pop()
+    rec(g.init, [], None)
+    return out
